@@ -46,6 +46,9 @@ type WordList struct {
 
 // Size of the wordlist in the recipe
 func (r WLRecipe) Size() uint32 {
+	if r.list == nil {
+		return 0
+	}
 	return r.list.Size()
 }
 
